@@ -34,13 +34,14 @@ func coqDir() string {
 	return filepath.Join(filepath.Dir(wd), "coq")
 }
 
-// printBack asks coqc for print (parse lexemes) of every program; nil entry = the reference parser
+// printBack asks coqc for print (pa_b (parse lexemes)) of every program: the reference tree with
+// every operator expression in parentheses (explicit grouping); nil entry = the reference parser
 // rejected it. Encoding per token: type, length of text, text bytes.
 func printBack(dir string, progs [][]Lexeme) ([][]OTok, error) {
 	var sb strings.Builder
 	sb.WriteString("From GL Require Import Common.Bytes Front.ByteNames Front.Lexer Front.Ast Front.Parser Front.Printer Front.Render Front.LexCases.\nOpen Scope Z_scope.\n")
 	sb.WriteString("Definition enc (l : list ptok) : list Z := flat_map (fun t => pty t :: len (ptext t) :: ptext t) l.\n")
-	sb.WriteString("Definition pb (l : list lexeme) : list Z := match parse (ptoks_of_lexemes l) with ParseOk t => 1 :: enc (print t) | _ => [0] end.\n")
+	sb.WriteString("Definition pb (l : list lexeme) : list Z := match parse (ptoks_of_lexemes l) with ParseOk t => 1 :: enc (print (pa_b t)) | _ => [0] end.\n")
 	for i, p := range progs {
 		fmt.Fprintf(&sb, "Definition p%d : list lexeme := %s.\n", i, lexemesCoq(p))
 	}
@@ -380,8 +381,35 @@ func runPrograms(w *lib.Writer, r *lib.Rand, tier string, outDir string) {
 		pr := r.Fork()
 		as[i], bs[i] = genProgram(pr, pr.Pick(3, 4, 2, 1)*pr.Range(1, 4))
 	}
+	for _, p := range operatorPrograms() { // priorities and associativity, systematically
+		as = append(as, p)
+		bs = append(bs, p)
+	}
 	progCheck(w, as, bs, r, outDir)
-	w.Meta.Extra["programs_printed_back"] = n
+	w.Meta.Extra["programs_printed_back"] = len(as)
+}
+
+// operatorPrograms: `return a op1 b op2 c` for every ordered pair of binary operators, and the
+// unary / binary combinations: gopher-lua's grouping must be the reference parser's (checked through
+// the bytecode of the fully parenthesised print-back).
+func operatorPrograms() [][]Lexeme {
+	ret := name("return")
+	a, b, c := name("a"), name("b"), name("c")
+	var ps [][]Lexeme
+	for _, o1 := range binops {
+		for _, o2 := range binops {
+			ps = append(ps, []Lexeme{ret, a, o1.lx, b, o2.lx, c})
+		}
+	}
+	for _, u := range unops {
+		for _, o := range binops {
+			ps = append(ps, []Lexeme{ret, u, a, o.lx, b}, []Lexeme{ret, a, o.lx, u, b}, []Lexeme{ret, u, a, o.lx, u, b, o.lx, c})
+		}
+		for _, u2 := range unops {
+			ps = append(ps, []Lexeme{ret, u, u2, a})
+		}
+	}
+	return ps
 }
 
 // progCheck: reference parser on whole programs + the reference tree printed back through
